@@ -118,8 +118,32 @@ class PitRun:
         if key not in self.wires:
             # FreshnessPeriod present for even ids only: matching does not depend on it (nor on the Interest's MustBeFresh)
             mi = enc.MetaInfo(freshness_period=1000) if d['id'] % 2 == 0 else enc.MetaInfo()
-            self.wires[key] = bytes(enc.make_data(self.uri(d['name']), mi, b'D%d' % d['id']))
+            shape = self.shape_of(d['name'], d['id'])
+            if shape != 'normal':
+                mi.content_type = d['id']          # the packet id travels in MetaInfo when the content cannot carry it
+            content = {'normal': b'D%d' % d['id'], 'empty': b'', 'absent': None}[shape]
+            self.wires[key] = bytes(enc.make_data(self.uri(d['name']), mi, content))
         return self.wires[key]
+
+    @staticmethod
+    def shape_of(name, did):
+        """What the Data packet carries besides its name (matching, validation and delivery do not depend on it):
+        a Content element with octets, an empty Content element, no Content element at all."""
+        return ('normal', 'empty', 'normal', 'absent', 'normal', 'normal')[(did * 7 + len(name)) % 6]
+
+    def packet_id(self, name, meta, content):
+        """-> (id, the delivered content is what that packet carries)"""
+        if content is not None and len(content) > 0:
+            did = int(bytes(content)[1:])
+        else:
+            did = meta.content_type
+        comps = [c for c in self.wires if c[1] == did and enc.Name.to_str(name) == self.uri(c[0])]
+        if not comps:
+            return did, False
+        shape = self.shape_of(comps[0][0], did)
+        ok = (content is None) if shape == 'absent' else (content is not None and len(content) == 0) if shape == 'empty' \
+            else (content is not None and bytes(content) == b'D%d' % did)
+        return did, ok
 
     def int_name(self, t, final=False):
         if t['name'] and t['name'][-1] == 'P':
@@ -191,9 +215,10 @@ class PitRun:
             name = res[0]
             content = res[1] if self.front == 'v2' else res[2]
             try:
-                did = int(bytes(content)[1:])
+                meta = res[2]['meta_info'] if self.front == 'v2' else res[1]
+                did, cok = self.packet_id(name, meta, content)
                 w = bytes(self.data_wire_by_id(did, name) or b'')
-                ok = w != b''
+                ok = w != b'' and cok
                 # the rest of what the caller gets belongs to the same packet: appv2 context (raw packet, MetaInfo),
                 # legacy MetaInfo and - when asked for - the raw packet
                 if ok and self.front == 'v2':
@@ -215,7 +240,9 @@ class PitRun:
             return {'k': 'cancel', 'd': 0, 'r': 0, 'v': '-', 'at': at}
         if isinstance(ex, ndn_types.ValidationFailure):
             try:
-                did = int(bytes(ex.content)[1:])
+                did, cok = self.packet_id(ex.name, ex.meta_info, ex.content)
+                if not cok:
+                    did = 0
             except Exception:
                 did = 0
             if self.front == 'v2':
